@@ -61,6 +61,12 @@ def jobs(tier, seed):
         p = gen.random_program(rng2, alpha, 3, 2, types='FS', p_sub=0.5, p_rel=0.6, reps=reps, sub_rel=True)
         if gen.count_leaves(p) <= 16:
             out.append({'prog': p, 'implicit': False, 'preread': i % 4 == 3})
+    # the same clauses on the flattened circuit (programs without repetition counts: flatten after unrolling counts > 1 is finding F14)
+    rng3 = random.Random(seed + 78)
+    for i in range(150 if tier == 'quick' else 800):
+        p = gen.random_program(rng3, alpha, 3, 2, types='FS', p_sub=0.6, p_rel=0.0, reps=(1,), sub_rel=False)
+        if 2 <= gen.count_leaves(p) <= 14:
+            out.append({'prog': p, 'implicit': False, 'preread': False, 'flatten': True})
     dmax, cmax = (3, 2) if tier == 'quick' else (3, 4)
     for d in range(2, dmax + 1):
         for cycles in range(0, cmax + 1):
@@ -174,8 +180,10 @@ def run(ctx, params):
         if params.get('preread'):
             preread(built.circuit)
         u = built.circuit.apply_modifiers()
+        if params.get('flatten'):
+            u = u.flatten()
         ops = u.operations
-        info = {'implicit': params['implicit'], 'preread': params.get('preread')}
+        info = {'implicit': params['implicit'], 'preread': params.get('preread'), 'flattened': bool(params.get('flatten'))}
         meas, info = check_indices(ctx, u, ops, info)
         check_record(ctx, u, meas, info)
         if params['implicit']:
